@@ -21,7 +21,7 @@ EXPLANATION = (
     "collapses configurations with equal predicate vectors; the thorough tier enumerates every tag. Exhaustive over the extracted "
     "space; that real firmware answers full-length blocks is assumed."
     ' (R0) the window argument is about the fetched block: trim_response must cut header and checksum by constants, a bound computed from unchecked response bytes is a violation.'
-    ' (R2) the modbus-N reads ask for register int(id[7:]), exactly one register, and decode its 2 bytes big-endian and signed; (R3) every constant block request asks for 1..125 registers inside the 16-bit address space.'
+    ' (R2) the modbus-N reads ask for register int(id[7:]), exactly one register, and decode its 2 bytes big-endian and signed; (R3) every constant block request asks for 1..125 registers inside the 16-bit address space. R2 also holds the branch itself: the raw-register read is reached exactly for ids that start with modbus.'
 )
 
 
@@ -141,7 +141,19 @@ def r2(ctx: Ctx, rep: Report):
             if m is None:
                 continue
             seen = set()
+            mentions = any(isinstance(x, ast.Call) and isinstance(x.func, ast.Attribute) and x.func.attr == "startswith" and x.args
+                           and isinstance(x.args[0], ast.Constant) and str(x.args[0].value).startswith("modbus") for x in ast.walk(m.node))
+            n_before = n
+            wrong_branch = None
             for p in enumerate_paths(prog, m, no_raise):
+                if mentions and wrong_branch is None and any(
+                        ev.kind == "test" and ev.data is False and isinstance(ev.node, ast.Call) and (call_chain(ev.node) or ("",))[-1] == "startswith"
+                        and ev.node.args and isinstance(ev.node.args[0], ast.Constant) and str(ev.node.args[0].value).startswith("modbus") for ev in p.events):
+                    idp_ = m.params[1]
+                    for ev in p.events:
+                        if ev.kind == "call" and (call_chain(ev.node) or ("",))[-1] == "_read_command" and ev.node.args and any(
+                                isinstance(x, ast.Subscript) and isinstance(x.value, ast.Name) and x.value.id == idp_ for x in ast.walk(ev.node.args[0])):
+                            wrong_branch = (p, ev.node)
                 # the raw-register branch: <id>.startswith('modbus') tested True (helpers the branch calls are inlined)
                 if not any(ev.kind == "test" and ev.data is True and isinstance(ev.node, ast.Call) and (call_chain(ev.node) or ("",))[-1] == "startswith"
                            and ev.node.args and isinstance(ev.node.args[0], ast.Constant) and str(ev.node.args[0].value).startswith("modbus") for ev in p.events):
@@ -190,6 +202,13 @@ def r2(ctx: Ctx, rep: Report):
                 rep.check(not why, "C14.R2", "modbus-n:%s.%s" % (famname, mname), fn_of.loc(decs[0]),
                           "%s.%s('modbus-N') fetches register N and decodes its 2 bytes big-endian, signed" % (famname, mname),
                           bad="%s.%s('modbus-N') %s" % (famname, mname, "; ".join(why)))
+            if mentions:
+                rep.check(wrong_branch is None and n > n_before, "C14.R2", "modbus-n-branch:%s.%s" % (famname, mname), m.loc(),
+                          "%s.%s takes the raw-register branch exactly for ids that start with 'modbus'" % (famname, mname),
+                          bad="%s.%s: %s" % (famname, mname,
+                                             "the register number is cut out of an id that does NOT start with 'modbus' (%s) [path %s]" % (
+                                                 m.loc(wrong_branch[1]), wrong_branch[0].describe(6)) if wrong_branch else
+                                             "no path on which the id starts with 'modbus' reaches the one-register read: 'modbus-N' ids are not served"))
     if n < 4:
         raise AnalysisError("only %d modbus-N read sites found" % n)
 
